@@ -294,6 +294,29 @@ var RenderBodies = []Body{
 		}
 		return ""
 	}},
+	{Name: "svg: regular and bold face of one family in one document, rendered 64 times", Heavy: true, Run: func() string {
+		// two fonts embedded in one SVG document: the bytes must not depend on a map's iteration order
+		loadFamily()
+		seen := map[string]bool{}
+		for k := 0; k < 64; k++ {
+			c := canvas.New(30, 12)
+			ctx := canvas.NewContext(c)
+			ctx.DrawText(2, 9, canvas.NewTextLine(twoFaces[0], "fi Vav", canvas.Left))
+			ctx.DrawText(2, 4, canvas.NewTextLine(twoFaces[1], "bold Vav", canvas.Left))
+			var buf bytes.Buffer
+			if err := renderers.SVG(&svg.Options{EmbedFonts: true, SubsetFonts: true})(&buf, c); err != nil {
+				return "error: " + err.Error()
+			}
+			seen[digest(buf.Bytes())] = true
+		}
+		if len(seen) != 1 {
+			return fmt.Sprintf("nondeterministic: %d distinct outputs in 64 renderings of the same drawing", len(seen))
+		}
+		for d := range seen {
+			return "1 output in 64 renderings: " + d
+		}
+		return ""
+	}},
 	{Name: "FontFamily.Face(Regular) of a family with the Light and the Medium style loaded, 64 times", Run: func() string {
 		// the requested style is not loaded and two loaded styles are equally close: the choice (and
 		// with it the faux weight of the face) must be the same every time
